@@ -392,6 +392,13 @@ func streamChan(o *Out, r *rand.Rand, n int, thorough bool) {
 		{"go-args-fan-out-6-params", "c = make(chan int64, 8)\nfunc w(out, id, p, q, r, s) {\nout <- id\n}\nfor i = 0; i < 8; i++ {\ngo w(c, i, 1, 0, \"w\", nil)\n}\nt = 0\nfor i = 0; i < 8; i++ {\nt += 1 << (<-c)\n}\nt", "255"},
 		{"go-args-fan-out-variadic", "c = make(chan int64, 8)\nfunc w(out, ids...) {\nout <- ids[0]\n}\nfor i = 0; i < 8; i++ {\ngo w(c, i, i)\n}\nt = 0\nfor i = 0; i < 8; i++ {\nt += 1 << (<-c)\n}\nt", "255"},
 		{"go-args-map-member-copied", "c = make(chan int64, 1)\nst = {\"next\": 5}\ngo func(a) {\nc <- a\n}(st.next)\nst.next = 6\n<-c", "5"},
+		{"zip-two-streams", "a = make(chan int64, 4)\nb = make(chan int64, 4)\nfor i = 1; i <= 4; i++ {\na <- i\nb <- i * 100\n}\nclose(a)\nclose(b)\nr = []\nfor x in a {\nr += x + <-b\n}\nr", "[101,202,303,404]"},
+		{"nested-ranges", "rows = make(chan int64, 2)\nrows <- 1\nrows <- 2\nclose(rows)\nr = []\nfor x in rows {\ncols = make(chan int64, 2)\ncols <- 10\ncols <- 20\nclose(cols)\nfor y in cols {\nr += x * 100 + y\n}\n}\nr", "[110,120,210,220]"},
+		{"range-with-ack", "jobs = make(chan int64)\nout = make(chan int64)\nack = make(chan int64)\ngo func() {\nfor j in jobs {\nout <- j * 10\n<-ack\n}\nclose(out)\n}()\ngo func() {\nfor i = 1; i <= 5; i++ {\njobs <- i\n}\nclose(jobs)\n}()\nr = []\nfor v in out {\nr += v\nack <- 1\n}\nr", "[10,20,30,40,50]"},
+		{"range-body-recv-ok", "a = make(chan int64, 3)\nb = make(chan int64, 3)\nfor i = 1; i <= 3; i++ {\na <- i\nb <- -i\n}\nclose(a)\nr = []\nfor x in a {\nv, ok = <-b\nr += x + v\n}\nr", "[0,0,0]"},
+		{"recv-arg-5-params", "src = make(chan int64, 6)\nfor i = 1; i <= 6; i++ {\nsrc <- i\n}\nfunc emit(v, a, b, c, d) { return v }\nr = []\nfor i = 0; i < 3; i++ {\nr += emit(<-src, 1, 2, 3, 4)\n}\nr + len(src)", "[1,2,3,3]"},
+		{"recv-arg-6-params-go", "ids = make(chan int64, 2)\nids <- 7\nids <- 8\nres = make(chan int64, 2)\nfunc worker(id, out, a, b, c, d) { out <- id }\ngo worker(<-ids, res, 1, 2, 3, 4)\ngo worker(<-ids, res, 1, 2, 3, 4)\n(<-res) + (<-res)", "15"},
+		{"recv-arg-variadic", "src = make(chan int64, 4)\nfor i = 1; i <= 4; i++ {\nsrc <- i\n}\nfunc first(v...) { return v[0] }\n[first(<-src, 0), first(<-src), len(src)]", "[1,2,2]"},
 		{"go-args-before-start", "c = make(chan int64)\ngo func(a, b) {\nc <- a + b\n}(probe(1), probe(2))\nprobe(3)\n<-c", "3"},
 		{"convert-float-to-int64-chan", "c = make(chan int64, 1)\nc <- 2.0\n<-c", "2"},
 		{"convert-int-to-float-chan", "c = make(chan float64, 1)\nc <- 2\n<-c", "2"},
